@@ -276,6 +276,14 @@ func C12(r *core.Report) {
 		for _, s := range analyzeBounds(p, f) {
 			curNode = g.NodeOf(s.Expr.Pos())
 			key := mk(s.key())
+			if !s.OK {
+				// a constant bound on a parameter: every caller in the repository passes a buffer at least that long
+				if need, ok := constNeed(info, s); ok {
+					if okc, why := paramLongEnoughAtCallers(p, f, s.Base, need); okc {
+						s.OK, s.Reason = true, why
+					}
+				}
+			}
 			report("C12.R2", key, pos(r, s.Expr), s.OK, s.Reason, s.Reason+": out-of-range on malformed input panics instead of returning an error", f)
 		}
 	}
@@ -499,6 +507,16 @@ func bufAtLeast(p *core.Prog, f *core.Func, g *core.Graph, n *core.GNode, e ast.
 	if l := minLenAt(p, f, g, n, e); l >= w {
 		return true, fmt.Sprintf("len(%s) >= %d is known here", core.ExprStr(e), w)
 	}
+	// a local assigned once from a constant sub-slice (buf := scratch[:4] with scratch an array)
+	if o := core.ObjOf(info, e); o != nil {
+		if d := singleDef(f, o); d != nil {
+			if _, isSl := core.Unparen(d).(*ast.SliceExpr); isSl {
+				if ok, _ := bufAtLeastNoRec(p, f, g, n, d, w); ok {
+					return true, fmt.Sprintf("%s is the constant sub-slice %s", core.ExprStr(e), core.ExprStr(d))
+				}
+			}
+		}
+	}
 	// a function parameter whose every caller in the repository passes a sufficiently long buffer: one level
 	if o := core.ObjOf(info, e); o != nil && f.Obj != nil {
 		idx := -1
@@ -669,6 +687,33 @@ func sizeBounded(p *core.Prog, f *core.Func, g *core.Graph, n *core.GNode, a ast
 	// a local variable that is only ever assigned constants
 	if o := core.ObjOf(info, a); o != nil && o.Pos() >= f.Body.Pos() && o.Pos() < f.Body.End() {
 		onlyConst, any := true, false
+		// sums of lengths of buffers that already exist count like constants: the result is proportional to the input held
+		lenOnly := func(e ast.Expr) bool {
+			ok := true
+			ast.Inspect(e, func(m ast.Node) bool {
+				switch x := m.(type) {
+				case *ast.CallExpr:
+					bn := core.BuiltinName(info, x)
+					if bn == "len" || bn == "cap" {
+						return false
+					}
+					if tv, isT := info.Types[x.Fun]; isT && tv.IsType() {
+						return true
+					}
+					ok = false
+				case *ast.Ident:
+					if v, isV := info.Uses[x].(*types.Var); isV && v != o {
+						ok = false
+					}
+				case *ast.BinaryExpr:
+					if x.Op != token.ADD {
+						ok = false
+					}
+				}
+				return true
+			})
+			return ok
+		}
 		ast.Inspect(f.Body, func(m ast.Node) bool {
 			switch s := m.(type) {
 			case *ast.AssignStmt:
@@ -677,7 +722,7 @@ func sizeBounded(p *core.Prog, f *core.Func, g *core.Graph, n *core.GNode, a ast
 						any = true
 						if len(s.Rhs) != len(s.Lhs) {
 							onlyConst = false
-						} else if _, isC := core.ConstInt(info, s.Rhs[i]); !isC {
+						} else if _, isC := core.ConstInt(info, s.Rhs[i]); !isC && !((s.Tok == token.ADD_ASSIGN || s.Tok == token.ASSIGN || s.Tok == token.DEFINE) && lenOnly(s.Rhs[i])) {
 							onlyConst = false
 						}
 					}
@@ -690,7 +735,7 @@ func sizeBounded(p *core.Prog, f *core.Func, g *core.Graph, n *core.GNode, a ast
 			return true
 		})
 		if any && onlyConst {
-			return true, "size is a local variable that only ever holds constants"
+			return true, "size is a local variable that only ever holds constants or sums of lengths of existing buffers"
 		}
 	}
 	// sizes built only from len(...)/cap(...) of existing buffers and constants are proportional to the input
@@ -943,4 +988,75 @@ func invariantHolds(p *core.Prog, f *core.Func, mentions []string, depth int) st
 		bad = "no success return found"
 	}
 	return bad
+}
+
+// constNeed: the number of bytes a bounds site needs from its base when the bound is a constant: x[k] needs k+1,
+// x[a:b] needs b, x[a:] needs a.
+func constNeed(info *types.Info, s boundsSite) (int64, bool) {
+	switch e := s.Expr.(type) {
+	case *ast.IndexExpr:
+		if c, ok := core.ConstInt(info, e.Index); ok {
+			return c + 1, true
+		}
+	case *ast.SliceExpr:
+		var need int64 = -1
+		if e.High != nil {
+			if c, ok := core.ConstInt(info, e.High); ok {
+				need = c
+			} else {
+				return 0, false
+			}
+		}
+		if e.Low != nil {
+			if c, ok := core.ConstInt(info, e.Low); ok {
+				if c > need {
+					need = c
+				}
+			} else {
+				return 0, false
+			}
+		}
+		if need >= 0 {
+			return need, true
+		}
+	}
+	return 0, false
+}
+
+// paramLongEnoughAtCallers: base is a slice parameter of f and every call site of f in the repository passes a buffer
+// whose length (capacity, for a slice of a whole array) is statically at least need.
+func paramLongEnoughAtCallers(p *core.Prog, f *core.Func, base ast.Expr, need int64) (bool, string) {
+	info := f.Pkg.TypesInfo
+	o := core.ObjOf(info, base)
+	if o == nil || f.Obj == nil {
+		return false, ""
+	}
+	idx := -1
+	for i := 0; ; i++ {
+		po := f.ParamObj(i)
+		if po == nil {
+			break
+		}
+		if po == o {
+			idx = i
+		}
+	}
+	if idx < 0 {
+		return false, ""
+	}
+	// the parameter must not be reassigned to something else before the site (only reslicing of itself is allowed)
+	callers := p.Callers(f)
+	if len(callers) == 0 {
+		return false, ""
+	}
+	for _, cs := range callers {
+		if idx >= len(cs.Call.Args) {
+			return false, ""
+		}
+		cg := p.Graph(cs.In)
+		if ok, _ := bufAtLeast(p, cs.In, cg, cg.NodeOf(cs.Call.Pos()), cs.Call.Args[idx], need); !ok {
+			return false, ""
+		}
+	}
+	return true, fmt.Sprintf("every one of the %d callers passes at least %d bytes for %s", len(callers), need, o.Name())
 }
